@@ -13,8 +13,6 @@
 #    License for the specific language governing permissions and limitations
 #    under the License.
 
-import binascii
-
 from yabgp.tlv import TLV
 from ..linkstate import LinkState
 
@@ -30,4 +28,4 @@ class LinkName(TLV):
     @classmethod
     def unpack(cls, data):
 
-        return cls(value=binascii.b2a_uu(data))
+        return cls(value=data.decode('ascii'))
